@@ -194,6 +194,8 @@ def run(ctx):
     if not SKIP_MODEL:
         res = tlc.run("Quantisation", _h.box_cfg("Quantisation.cfg", **consts), workers=ctx.pick(WORKERS, 16))
         ctx.add_tlc(res, "exhaustive (qindex, coefficient) box", dict(consts))
+        res = tlc.run("BigNatTest", "mc/BigNatTest.cfg", workers=1, coverage=False, env=XSS)
+        ctx.add_tlc(res, "self-test of BigNat.tla (limb arithmetic vs TLC integers, ring laws on multi-limb values)")
     # (G) TLC-chosen boundary cases on the real functions
     gconsts = dict(MaxQI=47, MaxM=2, MaxX=ctx.pick(300, 1200))
     reps = tlc_representatives(ctx, gconsts)
@@ -213,7 +215,8 @@ def run(ctx):
         jobs.append((tid, i, by_index[i]))
         origin[tid] = ("tlc-class", i)
     for i in range(0, max_index + 1):
-        xs = inputs_for_index(rnd, i, ctx.pick(64, 4096), ctx.pick(6, 40), ctx.pick(12, 60), 62 if i <= PLAIN_MAX_INDEX else 90)
+        dense = ctx.pick(64, 4096) if i <= PLAIN_MAX_INDEX else 4  # above index 115 small coefficients all quantise to 0
+        xs = inputs_for_index(rnd, i, dense, ctx.pick(6, 20), ctx.pick(12, 30), 62 if i <= PLAIN_MAX_INDEX else 90)
         plain = [v for v in xs if abs(v) <= PLAIN_MAX_X // 8] if i <= PLAIN_MAX_INDEX else []
         big = [v for v in xs if abs(v) > PLAIN_MAX_X // 8] if i <= PLAIN_MAX_INDEX else xs
         for part in (plain, big):
